@@ -32,6 +32,7 @@ type ltLive struct {
 	res      adapt.Parsed
 	consumed []byte
 	buf      []byte // the private buffer the value was parsed from
+	first    []byte // the first serialisation handed out, kept WITHOUT copying (a caller that stores encodings)
 }
 
 // ltIndependentOfBuffer: the structures property C08 lists as not sharing memory with the caller's
@@ -73,6 +74,11 @@ func (l *ltLive) holds() (bool, string) {
 	}
 	if err != nil {
 		return false, "serialising fails: " + err.Error()
+	}
+	if l.first == nil {
+		l.first = ser
+	} else if want := l.consumed[:min(len(l.consumed), len(l.first))]; !bytes.Equal(l.first, want) {
+		return false, fmt.Sprintf("the serialisation handed out earlier has changed under the caller's feet (first difference at %d): results share a buffer across calls", firstDiff(l.first, want))
 	}
 	if l.res.HasRem || len(ser) == len(l.consumed) {
 		if !bytes.Equal(ser, l.consumed) {
